@@ -102,7 +102,7 @@ class RenameAppLabel(BaseMutation):
             # validated by way of simulation.get_model_sig.
             model_sigs = [
                 simulation.get_model_sig(model_name)
-                for model_name in model_names
+                for model_name in sorted(model_names)
             ]
 
         # Copy over the models.
